@@ -1,5 +1,5 @@
 import bisect, itertools, re
-from vf import Check, Stream
+from vf import Check, Stream, first_diff
 
 
 def cost_bound(n):
@@ -305,8 +305,131 @@ def profile_case(rng, multi, R, length, profile, hash_mode=False):
     return g.ops
 
 
+
+def reset_hint_cases(thorough):
+    """A state-resetting operation immediately followed by each kind of hinted insert.
+    reset  = clear / copy or assign from an empty container (Map) / removing every entry one by one
+             (front, back, by key, by iterator) / removing only the last, only the first entry
+    hint   = begin, end, one past end, middle (ranks in the container as it is after the reset)
+    key    = below / equal to / between / equal to / above the extremes held before the reset
+    Aimed at the sentinel bookkeeping (_begin, endItem.prev, root) the hinted insert reads first:
+    c_insert_hint's `position == end()` branch and its `prev`/`next` look-ups."""
+    cases = []
+    bases = [[10, 20, 30, 40, 50], [10]] + ([[10, 20, 30], [10, 10, 20, 20]] if thorough else [])
+    for fl in ('map', 'multimap'):
+        resets = ['clear', 'drain_front', 'drain_back', 'drain_key', 'drain_iter', 'remb', 'remf', 'remi_last', 'remk_max']
+        if fl == 'map':
+            resets += ['copy', 'copyc', 'clear_bulk']
+        for base in bases:
+            if fl == 'map' and len(set(base)) != len(base):
+                continue
+            lo, hi = min(base), max(base)
+            for rs in resets:
+                pre = ['@' + fl] + ['ins %d %d' % (k, i + 1) for i, k in enumerate(base)]
+                left = sorted(base)
+                if rs == 'clear':
+                    pre.append('clear'); left = []
+                elif rs in ('copy', 'copyc'):
+                    pre.append(rs); left = []
+                elif rs == 'clear_bulk':
+                    pre += ['clear', 'bulk']; left = []
+                elif rs == 'drain_front':
+                    pre += ['remf'] * len(base); left = []
+                elif rs == 'drain_back':
+                    pre += ['remb'] * len(base); left = []
+                elif rs == 'drain_key':
+                    pre += ['remk %d' % k for k in reversed(sorted(base))]; left = []
+                elif rs == 'drain_iter':
+                    pre += ['remi %d' % (len(base) - 1 - i) for i in range(len(base))]; left = []
+                elif rs == 'remb':
+                    pre.append('remb'); left = left[:-1]
+                elif rs == 'remf':
+                    pre.append('remf'); left = left[1:]
+                elif rs == 'remi_last':
+                    pre.append('remi %d' % (len(base) - 1)); left = left[:-1]
+                elif rs == 'remk_max':
+                    pre.append('remk %d' % hi); left = left[:-1] if fl == 'map' else [k for k in left if k != hi] + [hi] * (left.count(hi) - 1)
+                n = len(left)
+                for hp in sorted({0, n, n + 1, n // 2}):
+                    for k in sorted({lo - 5, lo, lo + 5, hi, hi + 5}):
+                        ops = list(pre)
+                        ops.append('hint %d %d 100' % (hp, k))
+                        ops += ['find %d' % k, 'count %d' % k, 'front', 'back',
+                                'hint %d %d 101' % (n + 1, k + 1), 'hint 0 %d 102' % (lo - 6), 'ins %d 103' % (hi + 7),
+                                'find %d' % (k + 1), 'count %d' % (lo - 6), 'remb', 'remf', 'back', 'front']
+                        cases.append(ops)
+    return cases
+
+
+def drain_case(rng, multi, N, pattern, how):
+    """Fill ascending 1..N, then remove many keys from one side; finds of every remaining key at
+    check points.  Removals from the shorter side leave a node's height unchanged while its slope
+    reaches +-2: the branch of the removal loop where re-balancing (rebal_shrink_l/_r in the proofs)
+    is needed although the height did not change.  Depth and comparison count are the oracle."""
+    g = Gen(rng, multi, N + 2)
+    for i in range(1, N + 1):
+        g.ins(i // 2 if (multi and pattern == 'dups') else i)
+    keys = lambda: list(g.s.keys)
+    def keep(k):
+        if pattern == 'pow2':
+            return k & (k - 1) == 0
+        if pattern == 'every8':
+            return k % 8 == 0
+        return False
+    if pattern in ('pow2', 'every8'):
+        victims = [k for k in reversed(sorted(set(keys()))) if not keep(k)]          # from the back
+    elif pattern == 'pow2_front':
+        top = max(keys())
+        victims = [k for k in sorted(set(keys())) if (top + 1 - k) & (top - k) != 0]  # from the front, mirrored
+    elif pattern == 'front':
+        ks = sorted(set(keys())); victims = ks[:(len(ks) * 7) // 8]
+    elif pattern == 'back':
+        ks = sorted(set(keys())); victims = list(reversed(ks[len(ks) // 8:]))
+    else:  # dups
+        ks = sorted(set(keys())); victims = [k for k in reversed(ks) if k % 4 != 0]
+    step = max(1, len(victims) // 4)
+    for j, k in enumerate(victims):
+        if how == 'key':
+            g.remk(k)
+        elif how == 'iter':
+            ks = g.s.keys
+            g.remi(bisect.bisect_left(ks, k))
+        else:  # removeFront / removeBack where the victim is the extreme, else iterator
+            ks = g.s.keys
+            if ks and ks[0] == k:
+                g.remf()
+            elif ks and ks[-1] == k:
+                g.remb()
+            else:
+                g.remi(bisect.bisect_left(ks, k))
+        if (j + 1) % step == 0:
+            g.find_all()
+    g.find_all()
+    return g.ops
+
+
+def tree_depth(tokens):
+    """real depth of the tree printed in preorder (`.` = empty)"""
+    pos = 0
+    best = 0
+    stack = [0]          # depth of the node whose subtree is being read
+    # iterative preorder parse: each node token is followed by its left and right subtrees
+    pending = [1]        # number of subtrees still to read at each level
+    depth = 0
+    for t in tokens:
+        while pending and pending[-1] == 0:
+            pending.pop(); depth -= 1
+        if not pending:
+            break
+        pending[-1] -= 1
+        if t != '.':
+            depth += 1
+            best = max(best, depth)
+            pending.append(2)
+    return best
+
 PROFILES = ['ascending', 'descending', 'zigzag', 'random', 'internal', 'hinted', 'bulk', 'equal']
-MUT = ('ins', 'hint', 'remk', 'remi', 'remf', 'remb', 'copy', 'copyc', 'bulk')
+MUT = ('ins', 'hint', 'hintc', 'remk', 'remi', 'remf', 'remb', 'copy', 'copyc', 'bulk')
 
 
 class C01(Check):
@@ -314,12 +437,35 @@ class C01(Check):
     comp = 'Avl'
     extracted = ['coq/Avl/model.mli', 'coq/Avl/model.ml', 'ocaml/zconv.ml', 'ocaml/avl_driver.ml']
     harness_sources = ['harness/avl.cpp']
-    per_case_timeout = 20
-    level_text = ''
-    level_note = ''
-    technique = ''
-    rule = ''
-    assumptions = []
+    per_case_timeout = 5
+    level_text = ('Theorems in Coq (coq/Avl, 15 in Properties_C01.v), for every history of insert (plain and hinted), remove by key / '
+                  'iterator, removeFront/removeBack, clear, copy, insert(other), find/contains/count/front/back on two containers: '
+                  'the AVL invariant of the model (stored height = real height, sibling heights differ by at most 1, in-order sequence '
+                  'sorted - strict for Map, non-strict for MultiMap -, size counter = number of nodes) holds initially and is preserved '
+                  'by every operation; every operation refines the reference sorted (multi)map (contents, size, find/contains, count, '
+                  'front/back, returned iterator; a plain MultiMap insert lands after all keys <= k; the position a hinted MultiMap '
+                  'insert chooses is checked to keep the order); find makes at most 2*floor(1.4405*log2(n+2)) comparisons (integer '
+                  'form without axioms via fib(h+2) <= n+1 and 1.61803^121 >= 2^84; real-number form with ln/Int_part). The model is '
+                  'tied to the code by running the extracted model, the extracted reference and the ASan/UBSan build of the working '
+                  'tree on the same histories: results, iteration, tree shape with stored heights, parent links, slope fields and the '
+                  'threaded prev/next list are compared after every operation, plus the comparison counter of every find.')
+    level_note = ('The theorems are about the model; the tie to the code is differential. Validated by correspondence only (not '
+                  'theorems): threaded prev/next list = in-order walk, parent links, the stored slope field, and that the code\'s '
+                  '"stop going up when the height did not change" shortcuts compute the tree of the model (the model re-balances all '
+                  'the way to the root). Copy construction and operator= are modelled as sequential plain inserts, insert(other) as '
+                  'plain + hinted inserts, as the code does. MultiMap has no copy/bulk operations (ops are no-ops there). '
+                  'find_cost_logarithmic_real depends on the axioms of Coq\'s classical real numbers; the other 14 theorems are '
+                  'closed under the global context. Trusted: Coq kernel, AvlSpec.v as the reading of the property text, extraction, '
+                  'OCaml driver, harness, comparison-counting key type.')
+    technique = 'Coq proof about an executable Gallina model (invariant + refinement + cost bound); extracted model and reference run against the sanitizer build of the code on generated histories'
+    rule = ('cases = operation histories on two Map or two MultiMap objects: boundary (empty, single entry, key 0, negatives, '
+            'equal keys), build profiles (ascending/descending/zigzag/random/internal two-child removals/hinted/bulk+copy/equal-key '
+            'runs) over key ranges 4..200 and lengths 3..300, a small exhaustive scope of {reset op} x {hint position} x {key vs old '
+            'extremes} (416 cases), and fill-then-drain-one-side histories up to 60 (quick) / 255 (thorough) entries; a case is '
+            'non-trivial when it has at least 3 mutating operations and reaches at least 3 entries; distinct = distinct op text')
+    assumptions = ['keys and values are int (the code is a template; the harness instantiates a comparison-counting int key)',
+                   'the allocator succeeds (no out-of-memory path is modelled)',
+                   'Coq classical real-number axioms for find_cost_logarithmic_real only (sig_forall_dec, sig_not_dec, functional_extensionality_dep, classic)']
 
     def nontrivial(self, case, obs):
         muts = sum(1 for l in case if l.split(' ', 1)[0] in MUT)
@@ -333,7 +479,42 @@ class C01(Check):
                     pass
         return muts >= 3 and mx >= 3
 
+    def relational(self, cases, impl_obs, spec_obs):
+        """The place a hinted MultiMap insert takes inside a run of equal keys is not fixed by the
+        property (it depends on the tree shape).  The reference takes that position as an input and
+        checks it.  Where the implementation chose another position than the model, re-run the
+        reference with the implementation's choice (`hintc p k v r`): a position that breaks the
+        order is rejected (`!bad-choice`), a legitimate one is followed from then on."""
+        spec_obs = [list(s) for s in spec_obs]
+        cur = [list(c) for c in cases]
+        pending = list(range(len(cases)))
+        for _ in range(1000):
+            redo = []
+            for i in pending:
+                c = cur[i]
+                if not c or not c[0].startswith('@') or 'multimap' not in c[0].split():
+                    continue
+                k = first_diff(spec_obs[i], impl_obs[i])
+                ops = c[1:]
+                if k is None or k >= len(ops) or k >= len(impl_obs[i]):
+                    continue
+                t = ops[k].split()
+                m = re.match(r'^@(\d+):', impl_obs[i][k])
+                if t[0] not in ('hint', 'hintc') or not m or (t[0] == 'hintc' and t[4] == m.group(1)):
+                    continue
+                ops[k] = 'hintc %s %s %s %s' % (t[1], t[2], t[3], m.group(1))
+                cur[i] = [c[0]] + ops
+                redo.append(i)
+            if not redo:
+                break
+            res = self.run_spec([cur[i] for i in redo], tag='rel_spec')
+            for i, s in zip(redo, res):
+                spec_obs[i] = s
+            pending = redo
+        return spec_obs
+
     def judge(self, cases, impl_obs, spec_obs):
+        spec_obs = self.relational(cases, impl_obs, spec_obs)
         fails = Check.judge(self, cases, impl_obs, spec_obs)
         seen = {i for (i, _, _) in fails}
         # the cost clause: comparisons of a find <= 2*floor(1.4405*log2(n+2))
@@ -342,9 +523,20 @@ class C01(Check):
                 continue
             for k, l in enumerate(obs):
                 m = re.match(r'^\S+ c=(\d+) \| (\d+) ', l)
-                if m and int(m.group(1)) > bound(int(m.group(2))):
-                    fails.append((i, k, 'find made %s key comparisons among %s entries, bound is %d' % (m.group(1), m.group(2), bound(int(m.group(2))))))
+                if not m:
+                    continue
+                n = int(m.group(2))
+                if int(m.group(1)) > bound(n):
+                    fails.append((i, k, 'find made %s key comparisons among %s entries, bound is %d' % (m.group(1), n, bound(n))))
                     break
+                # "logarithmically deep": the real depth of the Item tree (read from the L-int dump,
+                # not from the stored height fields) obeys the same bound (theorem height_logarithmic)
+                secs = l.split(' | ')
+                if len(secs) >= 3 and not secs[2].startswith('#'):
+                    d = tree_depth(secs[2].split(' ')[0].split(','))
+                    if 2 * d > bound(n):
+                        fails.append((i, k, 'tree of %d entries is %d levels deep, bound is %d' % (n, d, bound(n) // 2)))
+                        break
         return fails
 
     def streams(self, tier, rng):
@@ -373,6 +565,16 @@ class C01(Check):
                         for _ in range(reps if length < 100 else max(1, reps // 2)):
                             cases.append(profile_case(rng, multi, R, length, prof))
             out.append(Stream(prof, cases))
+        # reset followed by hinted insert (small exhaustive scope)
+        out.append(Stream('reset_hint', reset_hint_cases(thorough)))
+        # fill ascending, drain one side: balance is the only thing at stake
+        cases = []
+        for multi in (False, True):
+            for N in ([15, 31, 63, 100, 127, 200, 255] if thorough else [15, 31, 60]):
+                for pattern in ('pow2', 'pow2_front', 'every8', 'front', 'back') + (('dups',) if multi else ()):
+                    for how in (('key', 'iter', 'ends') if (thorough or N <= 31) else (rng.choice(['key', 'iter', 'ends']),)):
+                        cases.append(drain_case(rng, multi, N, pattern, how))
+        out.append(Stream('drain', cases))
         return out
 
 
